@@ -120,7 +120,7 @@ def run_check(prop, tree, root, tier="quick", extra=()):
     return {"rc": p.returncode, "viol": viol, "info": info, "wall": time.time() - t0, "replay_reproduces": replay_ok, "stderr": p.stderr[-300:]}
 
 
-def judge_patch(name, patch, expect_props, root, report):
+def judge_patch(name, patch, expect_props, root, report, expect_inconclusive=False):
     tree = make_copy(patch, root)
     tests_ok, tail = run_tests(tree)
     res = {"tests_pass": tests_ok, "tests": tail, "checks": {}}
@@ -133,9 +133,12 @@ def judge_patch(name, patch, expect_props, root, report):
             caught.append(prop)
             if not r["replay_reproduces"]:
                 ok = False
-        elif r["rc"] != 0:
+        elif r["rc"] != 0 and not expect_inconclusive:
             ok = False
-    if expect_props:
+    if expect_inconclusive:
+        # outside the model: the only acceptable answer is "no verdict" (exit 2, no VIOLATION line)
+        ok = tests_ok and not caught and all(c["rc"] == 2 for c in res["checks"].values())
+    elif expect_props:
         if not any(p in caught for p in expect_props):
             ok = False
     elif caught:
@@ -178,10 +181,16 @@ def seeded(names):
     try:
         for d in sorted(glob.glob(os.path.join(HERE, "seeded", "*"))):
             name = os.path.basename(d)
-            if not os.path.isdir(d) or (names and not any(n in name for n in names)):
+            if not os.path.isdir(d) or name == "refactorings" or (names and not any(n in name for n in names)):
                 continue
             meta = json.load(open(os.path.join(d, "meta.json")))
-            ok &= judge_patch(name, os.path.join(d, "patch.diff"), [meta["property"]], root, report)
+            ok &= judge_patch(name, os.path.join(d, "patch.diff"), [meta["property"]], root, report,
+                              expect_inconclusive=meta.get("expected_check_result") == "inconclusive")
+        for d in sorted(glob.glob(os.path.join(HERE, "seeded", "refactorings", "*"))):
+            name = "refactoring-" + os.path.basename(d)
+            if not os.path.isdir(d) or (names and not any(n in name for n in names)):
+                continue
+            ok &= judge_patch(name, os.path.join(d, "patch.diff"), [], root, report)
     finally:
         shutil.rmtree(root, ignore_errors=True)
     with open(os.path.join(HERE, "seeded", "REPORT.json"), "w") as f:
